@@ -20,7 +20,12 @@ REGISTRATION = {
             "has are mirrored in the model with Lean-checked witnesses. The model is tied to the real code by "
             "exact comparison of outcome class, request counts and the whole store (blob bytes, -partial data, "
             "part records, manifests) after every attempt of thousands of scripted multi-attempt histories, "
-            "and the property itself is evaluated on the real store with real SHA-256.",
+            "and the property itself is evaluated on the real store with real SHA-256. The fault alphabet covers "
+            "5xx/404/401 with arbitrary challenges, token failures, transport errors, wrong Content-Length, truncated / "
+            "reset / stalled / flipped / Range-ignoring / error-page bodies, malformed and looping redirects with the "
+            "client's redirect budget, redirects to dead hosts, caller cancellation inside a chunk read, resume from 1-17 "
+            "part records (Glob order) and from a real interrupted > 1 GB multi-part download. A death of the process "
+            "running the pull is an L2 failure with the running case as replay (the driver is restarted after it).",
     "design_ref": "DESIGN.md §5 C03",
     "note": COMMON_NOTE + "Modelled, not verified: HTTP (net/http client behaviour enters through an in-memory "
             "RoundTripper), JSON encoding of manifests/part records, file-system semantics (program order, "
@@ -28,9 +33,10 @@ REGISTRATION = {
             "peer that sends no byte at all, hang the real code forever and are excluded), goroutine "
             "interleavings of concurrent parts (parts are independent in the model; scripts with stalls are "
             "only generated for single-part layers), concurrent pulls of one digest (blobDownloadManager), "
-            "context cancellation by the caller (F21 is recorded, not replayed). Multi-part plans from HEAD are "
+            "caller cancellation before the download goroutine has started (F21: replayed by a dedicated probe, not in the "
+            "model). Multi-part plans from HEAD are "
             "compared with the real Prepare as a table; multi-part downloads are exercised through resume "
-            "records (the 100 MB minimum part size cannot be changed from outside).",
+            "records of small blobs (1-17 parts) and one real > 1 GB virtual blob per quick run.",
 }
 
 MODULES = ["OllamaVerif.Properties.C03"]
